@@ -116,10 +116,17 @@ struct Corpus {
 }
 
 fn build_corpus(schema: &Schema, seed: u64, per_type: usize, repo: &str) -> Corpus {
+    build_corpus_filtered(schema, seed, per_type, repo, &|_| true, usize::MAX)
+}
+
+fn build_corpus_filtered(schema: &Schema, seed: u64, per_type: usize, repo: &str, keep: &dyn Fn(usize) -> bool, max_blob: usize) -> Corpus {
     let codec = Codec::new(schema);
     let gen = Gen::new(schema, GenCfg { big: false, stray_pct: 0 });
     let mut items = vec![];
     for (ti, key) in TYPE_KEYS.iter().enumerate() {
+        if !keep(ti) {
+            continue;
+        }
         let def = schema.get(key);
         let mut rng = Rng::derive(seed, 0xC02 ^ fnv(key.as_bytes()));
         let mut got = 0;
@@ -154,7 +161,7 @@ fn build_corpus(schema: &Schema, seed: u64, per_type: usize, repo: &str) -> Corp
                 continue;
             }
             for (ti, key) in TYPE_KEYS.iter().enumerate() {
-                if schema.get(key).cf == Some((bytes[0], bytes[1])) {
+                if keep(ti) && bytes.len() <= max_blob && schema.get(key).cf == Some((bytes[0], bytes[1])) {
                     items.push((ti, bytes.clone(), None));
                 }
             }
@@ -163,15 +170,121 @@ fn build_corpus(schema: &Schema, seed: u64, per_type: usize, repo: &str) -> Corp
     Corpus { items }
 }
 
-fn visit_nodes<'a>(n: &'a mut Node, out: &mut Vec<*mut Node>) {
-    out.push(n as *mut Node);
+fn count_nodes(n: &Node) -> usize {
+    1 + match &n.payload {
+        Payload::Struct(s) => s.positional.iter().map(count_nodes).sum::<usize>() + s.groups.iter().flat_map(|g| g.elems.iter()).map(count_nodes).sum::<usize>(),
+        Payload::Leaf(_) => 0,
+    }
+}
+
+/// Apply `f` to the `idx`-th node of the tree in depth-first order.
+fn with_node_mut(n: &mut Node, idx: &mut usize, f: &mut dyn FnMut(&mut Node)) -> bool {
+    if *idx == 0 {
+        f(n);
+        return true;
+    }
+    *idx -= 1;
     if let Payload::Struct(s) = &mut n.payload {
         for c in s.positional.iter_mut() {
-            visit_nodes(c, out);
+            if with_node_mut(c, idx, f) {
+                return true;
+            }
         }
         for g in s.groups.iter_mut() {
             for c in g.elems.iter_mut() {
-                visit_nodes(c, out);
+                if with_node_mut(c, idx, f) {
+                    return true;
+                }
+            }
+        }
+    }
+    false
+}
+
+fn mutate_node(node: &mut Node, rng: &mut Rng) {
+    let plen = match &node.payload {
+        Payload::Leaf(b) => b.len(),
+        Payload::Struct(s) => s.bytes().map(|b| b.len()).unwrap_or(0),
+    };
+    match rng.below(14) {
+        0 => node.prefix_override = Some(vec![0x81]),
+        1 => node.prefix_override = Some(vec![0x82]),
+        2 => node.prefix_override = Some(vec![0x82, rng.byte()]),
+        3 => node.prefix_override = Some(vec![0xff]),
+        4 => node.prefix_override = Some(vec![0xff, rng.byte()]),
+        5 => {
+            // announce more / less than there is, in the style's own form
+            let wrong = if rng.chance(1, 2) { plen + 1 + rng.below(300) as usize } else { plen.saturating_sub(1 + rng.below(3) as usize) };
+            node.prefix_override = Some(match (&node.len, node.apdu) {
+                (_, true) => refcodec::codec::apdu_len(wrong.min(65535)).unwrap(),
+                (Len::Ll, _) => refcodec::codec::llvar(wrong.min(99), 2).unwrap(),
+                (Len::Lll, _) => refcodec::codec::llvar(wrong.min(999), 3).unwrap(),
+                _ => ber_len(wrong.min(65535)).unwrap(),
+            });
+        }
+        6 => {
+            // digit overflow: far more BCD digits than any integer can hold
+            let n = 1 + rng.below(24) as usize;
+            node.payload = Payload::Leaf(vec![0x99; n]);
+        }
+        7 => {
+            // F nibbles / non-digits
+            let n = rng.below(12) as usize;
+            node.payload = Payload::Leaf((0..n).map(|_| *rng.pick(&[0xffu8, 0x9f, 0xf9, 0xaa, 0x0f, 0xf0, 0x12])).collect());
+        }
+        8 => {
+            // calendar values (date-time TLVs) with impossible components
+            let date = rng.below(10000) as u128 * 10000 + rng.below(20) as u128 * 100 + rng.below(40) as u128;
+            let time = rng.below(30) as u128 * 10000 + rng.below(100) as u128 * 100 + rng.below(100) as u128;
+            let (db, tb) = if rng.chance(1, 6) { (vec![0x99; 12], vec![0x99; 6]) } else { (bcd_bytes(date), bcd_bytes(time)) };
+            let mut p = vec![0x1f, 0x0e];
+            p.extend(ber_len(db.len()).unwrap());
+            p.extend(db);
+            if !rng.chance(1, 8) {
+                p.extend([0x1f, 0x0f]);
+                p.extend(ber_len(tb.len()).unwrap());
+                p.extend(tb);
+            }
+            if rng.chance(1, 8) {
+                p.extend([0x1f, 0x0e, 0x01, 0x01]);
+            }
+            node.payload = Payload::Leaf(p);
+        }
+        9 => {
+            // tag splice
+            node.tag = match rng.below(4) {
+                0 => vec![0x1f],
+                1 => vec![0xff],
+                2 => vec![0x1f, rng.byte()],
+                _ => vec![rng.byte()],
+            };
+        }
+        10 => {
+            if let Payload::Struct(s) = &mut node.payload {
+                if !s.groups.is_empty() {
+                    let i = rng.below(s.groups.len() as u64) as usize;
+                    let g = s.groups[i].clone();
+                    match rng.below(3) {
+                        0 => s.groups.push(g),
+                        1 => {
+                            s.groups.remove(i);
+                        }
+                        _ => s.groups.insert(0, g),
+                    }
+                }
+            }
+        }
+        11 => {
+            let n = rng.below(9) as usize;
+            node.payload = Payload::Leaf(rng.bytes(n));
+        }
+        12 => node.payload = Payload::Leaf(vec![]),
+        _ => {
+            if let Payload::Leaf(b) = &mut node.payload {
+                if !b.is_empty() {
+                    let i = rng.below(b.len() as u64) as usize;
+                    b[i] = rng.byte();
+                }
             }
         }
     }
@@ -182,97 +295,10 @@ fn mutate_tree(tree: &Node, rng: &mut Rng) -> Option<Vec<u8>> {
     let mut t = tree.clone();
     let n_mut = 1 + rng.below(2);
     for _ in 0..n_mut {
-        let mut ptrs = vec![];
-        visit_nodes(&mut t, &mut ptrs);
-        let target = ptrs[rng.below(ptrs.len() as u64) as usize];
-        // SAFETY: pointers into `t`, which is alive and not otherwise borrowed; one node is mutated at a time.
-        let node: &mut Node = unsafe { &mut *target };
-        let plen = match &node.payload {
-            Payload::Leaf(b) => b.len(),
-            Payload::Struct(s) => s.bytes().map(|b| b.len()).unwrap_or(0),
-        };
-        match rng.below(14) {
-            0 => node.prefix_override = Some(vec![0x81]),
-            1 => node.prefix_override = Some(vec![0x82]),
-            2 => node.prefix_override = Some(vec![0x82, rng.byte()]),
-            3 => node.prefix_override = Some(vec![0xff]),
-            4 => node.prefix_override = Some(vec![0xff, rng.byte()]),
-            5 => {
-                // announce more / less than there is, in the style's own form
-                let wrong = if rng.chance(1, 2) { plen + 1 + rng.below(300) as usize } else { plen.saturating_sub(1 + rng.below(3) as usize) };
-                node.prefix_override = Some(match (&node.len, node.apdu) {
-                    (_, true) => refcodec::codec::apdu_len(wrong.min(65535)).unwrap(),
-                    (Len::Ll, _) => refcodec::codec::llvar(wrong.min(99), 2).unwrap(),
-                    (Len::Lll, _) => refcodec::codec::llvar(wrong.min(999), 3).unwrap(),
-                    _ => ber_len(wrong.min(65535)).unwrap(),
-                });
-            }
-            6 => {
-                // digit overflow: far more BCD digits than any integer can hold
-                let n = 1 + rng.below(24) as usize;
-                node.payload = Payload::Leaf(vec![0x99; n]);
-            }
-            7 => {
-                // F nibbles / non-digits
-                let n = rng.below(12) as usize;
-                node.payload = Payload::Leaf((0..n).map(|_| *rng.pick(&[0xffu8, 0x9f, 0xf9, 0xaa, 0x0f, 0xf0, 0x12])).collect());
-            }
-            8 => {
-                // calendar values (date-time TLVs) with impossible components
-                let date = rng.below(10000) as u128 * 10000 + rng.below(20) as u128 * 100 + rng.below(40) as u128;
-                let time = rng.below(30) as u128 * 10000 + rng.below(100) as u128 * 100 + rng.below(100) as u128;
-                let (db, tb) = if rng.chance(1, 6) { (vec![0x99; 12], vec![0x99; 6]) } else { (bcd_bytes(date), bcd_bytes(time)) };
-                let mut p = vec![0x1f, 0x0e];
-                p.extend(ber_len(db.len()).unwrap());
-                p.extend(db);
-                if !rng.chance(1, 8) {
-                    p.extend([0x1f, 0x0f]);
-                    p.extend(ber_len(tb.len()).unwrap());
-                    p.extend(tb);
-                }
-                if rng.chance(1, 8) {
-                    p.extend([0x1f, 0x0e, 0x01, 0x01]);
-                }
-                node.payload = Payload::Leaf(p);
-            }
-            9 => {
-                // tag splice
-                node.tag = match rng.below(4) {
-                    0 => vec![0x1f],
-                    1 => vec![0xff],
-                    2 => vec![0x1f, rng.byte()],
-                    _ => vec![rng.byte()],
-                };
-            }
-            10 => {
-                if let Payload::Struct(s) = &mut node.payload {
-                    if !s.groups.is_empty() {
-                        let i = rng.below(s.groups.len() as u64) as usize;
-                        let g = s.groups[i].clone();
-                        match rng.below(3) {
-                            0 => s.groups.push(g),
-                            1 => {
-                                s.groups.remove(i);
-                            }
-                            _ => s.groups.insert(0, g),
-                        }
-                    }
-                }
-            }
-            11 => {
-                let n = rng.below(9) as usize;
-                node.payload = Payload::Leaf(rng.bytes(n));
-            }
-            12 => node.payload = Payload::Leaf(vec![]),
-            _ => {
-                if let Payload::Leaf(b) = &mut node.payload {
-                    if !b.is_empty() {
-                        let i = rng.below(b.len() as u64) as usize;
-                        b[i] = rng.byte();
-                    }
-                }
-            }
-        }
+        let total = count_nodes(&t);
+        let mut idx = rng.below(total as u64) as usize;
+        let mut rng2 = Rng::derive(rng.next(), 1);
+        with_node_mut(&mut t, &mut idx, &mut |node: &mut Node| mutate_node(node, &mut rng2));
     }
     let mut bytes = t.bytes().or_else(|| tree.bytes())?;
     // cut inside (nested containers cut in the middle), sometimes
@@ -622,6 +648,9 @@ pub fn run(ctx: &Ctx) -> i32 {
         }
     }
     report.counters.remove("max_peak_alloc_bytes_shard_sum");
+    if !quick && std::env::var("VERIF_NO_MIRI").is_err() {
+        miri_tier(&mut report, "c02", 16, 150, seed);
+    }
     report.finish()
 }
 
@@ -634,50 +663,119 @@ pub fn one() -> i32 {
     0
 }
 
-/// Down-scaled slice of the C02/C16/C17 workloads for Miri (`cargo +nightly miri run -- miri-slice`).
+/// Down-scaled slices of the C02 / C04 / C16 / C17 workloads for the Miri interpreter
+/// (`cargo +nightly miri run -p zvtmon -- miri-slice <kind> <n> <shard>`).
 pub fn miri_slice(ctx: &Ctx) -> i32 {
-    let schema = refcodec::zvt_schema();
-    let n: usize = ctx.args.first().and_then(|s| s.parse().ok()).unwrap_or(200);
-    let shard: usize = ctx.args.get(1).and_then(|s| s.parse().ok()).unwrap_or(0);
-    let corpus = build_corpus(&schema, ctx.seed, 2, &repo_path());
-    let mut rng = Rng::derive(ctx.seed, 0x3141 + shard as u64);
-    let with_tree: Vec<usize> = (0..corpus.items.len()).filter(|i| corpus.items[*i].2.is_some()).collect();
-    let mut done = 0usize;
-    let mut panics = 0usize;
-    while done < n {
-        let ci = with_tree[rng.below(with_tree.len() as u64) as usize];
-        let (ti, bytes, tree) = &corpus.items[ci];
-        let input = if rng.chance(1, 3) { bytes.clone() } else { mutate_tree(tree.as_ref().unwrap(), &mut rng).unwrap_or_else(|| bytes.clone()) };
-        if decode(*ti, &input).is_err() {
-            panics += 1;
-        }
-        if schema.get(TYPE_KEYS[*ti]).cf.is_some() {
-            let e = TYPE_KEYS.len() + rng.below(ENUM_KEYS.len() as u64) as usize;
-            if decode(e, &input).is_err() {
-                panics += 1;
+    let kind = ctx.args.first().cloned().unwrap_or_else(|| "c02".into());
+    let n: usize = ctx.args.get(1).and_then(|s| s.parse().ok()).unwrap_or(100);
+    let shard: usize = ctx.args.get(2).and_then(|s| s.parse().ok()).unwrap_or(0);
+    let mut r = Report::new(&kind.to_uppercase(), "thorough", ctx.seed, "exploration");
+    let mut ops = 0usize;
+    match kind.as_str() {
+        "c02" => {
+            let schema = refcodec::zvt_schema();
+            // each interpreter process takes a slice of the types (building the corpus is the slow part under Miri)
+            let corpus = build_corpus_filtered(&schema, ctx.seed, 2, &repo_path(), &|ti| ti % 16 == shard % 16, 200);
+            let mut rng = Rng::derive(ctx.seed, 0x3141 + shard as u64);
+            let with_tree: Vec<usize> = (0..corpus.items.len()).filter(|i| corpus.items[*i].2.is_some()).collect();
+            while ops < n {
+                let ci = with_tree[rng.below(with_tree.len() as u64) as usize];
+                let (ti, bytes, tree) = &corpus.items[ci];
+                let input = if rng.chance(1, 3) { bytes.clone() } else { mutate_tree(tree.as_ref().unwrap(), &mut rng).unwrap_or_else(|| bytes.clone()) };
+                if let Err(p) = decode(*ti, &input) {
+                    r.violation(&format!("{}: {}", decoder_name(*ti), panic_signature(&p)), &p, json!({"bytes": hex(&input)}));
+                }
+                if schema.get(TYPE_KEYS[*ti]).cf.is_some() {
+                    let e = TYPE_KEYS.len() + rng.below(ENUM_KEYS.len() as u64) as usize;
+                    if let Err(p) = decode(e, &input) {
+                        r.violation(&format!("{}: {}", decoder_name(e), panic_signature(&p)), &p, json!({"bytes": hex(&input)}));
+                    }
+                }
+                ops += 1;
             }
         }
-        done += 1;
+        "c04" => ops = crate::c04::miri_slice(&mut r, ctx.seed, n, shard),
+        "c16" => ops = crate::c16::miri_slice(&mut r, n, shard),
+        "c17" => ops = crate::c17::miri_slice(&mut r, ctx.seed, n, shard),
+        other => {
+            eprintln!("unknown miri slice {other}");
+            return 2;
+        }
     }
-    // length prefixes and scalar encodings at their boundaries
-    use zvt_builder::length::{Adpu, Length, Llv, Lllv, Tlv};
-    for l in [0usize, 1, 127, 128, 255, 256, 65535] {
-        let _ = Tlv::deserialize(&Tlv::serialize(l));
-        let _ = Adpu::deserialize(&Adpu::serialize(l));
+    println!("MIRI-SLICE kind={kind} shard={shard} ops={ops} evaluations={} violations={}", r.evaluations.max(ops as u64), r.violation_count);
+    for (sig, (what, _)) in &r.violations {
+        println!("MIRI-VIOLATION {sig} :: {what}");
     }
-    for l in [0usize, 9, 10, 99] {
-        let _ = Llv::deserialize(&Llv::serialize(l));
-        let _ = Lllv::deserialize(&Lllv::serialize(l * 10));
-    }
-    for b in [&[][..], &[0x82][..], &[0x82, 1][..], &[0x81][..], &[0xff][..], &[0xff, 1][..]] {
-        let _ = guarded(|| Tlv::deserialize(b).map(|x| x.0));
-        let _ = guarded(|| Adpu::deserialize(b).map(|x| x.0));
-    }
-    println!("MIRI-SLICE shard={shard} decodes={done} panics_observed={panics}");
-    if panics == 0 {
+    if r.violation_count == 0 {
         0
     } else {
         1
     }
 }
 
+/// Run the Miri tier for `kind` in `procs` interpreter processes; results go into the report.
+pub fn miri_tier(report: &mut Report, kind: &str, procs: usize, ops_per_proc: usize, seed: u64) {
+    let harness = std::env::var("VERIF_HARNESS").unwrap_or_else(|_| "/verif/harness".into());
+    let work = std::env::var("VERIF_WORK").unwrap_or_else(|_| "/verif/.build/main".into());
+    let run = |shard: usize, n: usize| {
+        std::process::Command::new("cargo")
+            .args(["+nightly", "miri", "run", "--quiet", "-p", "zvtmon", "--", "miri-slice", kind, &n.to_string(), &shard.to_string(), "--seed", &seed.to_string()])
+            .current_dir(&harness)
+            .env("CARGO_TARGET_DIR", format!("{work}/miri-target"))
+            .env("MIRIFLAGS", "-Zmiri-disable-isolation")
+            .env("CARGO_NET_OFFLINE", "true")
+            .env_remove("RUSTFLAGS")
+            .stdout(std::process::Stdio::piped())
+            .stderr(std::process::Stdio::piped())
+            .spawn()
+    };
+    // first process alone: it also builds the interpreter's copy of the dependencies
+    let mut outputs = vec![];
+    match run(0, ops_per_proc).and_then(|c| c.wait_with_output()) {
+        Ok(o) => outputs.push(o),
+        Err(e) => {
+            report.extra.insert("miri".into(), json!({"status": format!("not run: {e}")}));
+            return;
+        }
+    }
+    let children: Vec<_> = (1..procs).filter_map(|s| run(s, ops_per_proc).ok()).collect();
+    for c in children {
+        if let Ok(o) = c.wait_with_output() {
+            outputs.push(o);
+        }
+    }
+    let mut ops = 0u64;
+    let mut finished = 0;
+    let mut notes = vec![];
+    for o in &outputs {
+        let out = String::from_utf8_lossy(&o.stdout);
+        let err = String::from_utf8_lossy(&o.stderr);
+        for l in out.lines() {
+            if let Some(rest) = l.strip_prefix("MIRI-SLICE ") {
+                finished += 1;
+                if let Some(n) = rest.split_whitespace().find_map(|t| t.strip_prefix("ops=")).and_then(|n| n.parse::<u64>().ok()) {
+                    ops += n;
+                }
+            }
+            if let Some(v) = l.strip_prefix("MIRI-VIOLATION ") {
+                let (sig, what) = v.split_once(" :: ").unwrap_or((v, ""));
+                report.violation(&format!("[under Miri] {sig}"), what, json!({"kind": "miri", "slice": kind}));
+            }
+        }
+        if err.contains("Undefined Behavior") || err.contains("error: unsupported operation") || err.contains("data race") {
+            // first frame inside the repository decides
+            let in_repo = err.lines().find(|l| l.contains("/zvt_builder/src") || l.contains("/zvt/src") || l.contains("/zvt_derive/src") || l.contains("/zvt_feig_terminal/src"));
+            let head: String = err.lines().filter(|l| l.starts_with("error")).take(2).collect::<Vec<_>>().join(" | ");
+            match in_repo {
+                Some(frame) if err.contains("Undefined Behavior") || err.contains("data race") => report.violation(&format!("[Miri] {}", refcodec::evidence::strip_numbers(&head)), &format!("{head}; first repository frame: {}", frame.trim()), json!({"kind": "miri", "slice": kind, "stderr": err.chars().take(3000).collect::<String>()})),
+                _ => notes.push(format!("report outside the repository's code: {head}")),
+            }
+        } else if !o.status.success() && !out.contains("MIRI-SLICE") {
+            notes.push(format!("interpreter process ended without a result: {}", err.lines().rev().take(3).collect::<Vec<_>>().join(" | ")));
+        }
+    }
+    report.extra.insert("miri".into(), json!({"slice": kind, "interpreter_processes": outputs.len(), "finished": finished, "operations_executed_under_miri": ops, "notes": notes}));
+    if finished == 0 {
+        report.inconclusive("the Miri tier did not produce any result (see coverage.miri.notes)");
+    }
+}
